@@ -31,10 +31,11 @@ func checkC07(c *Ctx, r *Report) {
 	checkQRInterleave(c, r)
 	checkQRZigZag(c, r)
 	checkQRTerminate(c, r)
+	checkQRBasicPatterns(c, r)
 	checkQRVersionPlacement(c, r)
 	checkQRBasicPlacement(c, r)
 	r.Assume("ISO/IEC 18004 Table 9 as transcribed in checker/ref_qr.go (cross-validated by the geometry-derived totals: a wrong transcription would make data/blocks non-integral or disagree with the published capacities)")
-	r.Note("not decided: that MatrixUtil_buildMatrix's procedure composes the verified constants as the standard prescribes for every payload (embedDataBits zig-zag, interleaving loop)")
+	r.Note("not decided: that MatrixUtil_buildMatrix calls its (individually decided) steps in the prescribed order for every payload, and mask selection by penalty score (any of the eight masks is a conforming symbol)")
 }
 
 // ---- encoder alignment coordinate table ----
@@ -2159,4 +2160,136 @@ func bitString(b []bool) string {
 		}
 	}
 	return s
+}
+
+// S-QRBASIC: finder patterns, separators, dark module, alignment patterns and timing tracks as drawn, for every version
+func checkQRBasicPatterns(c *Ctx, r *Report) {
+	r.Rule("S-QRBASIC", "embedBasicPatterns, folded from source for each version 1..40 on a module-matrix model (Get / Set recorded, everything else folded as written), leaves exactly the fixed patterns of ISO 18004: the three finder patterns with their separators, the dark module, an alignment pattern at every pair of the version's centre coordinates except the three that meet a finder pattern, the two timing tracks - every other module still empty, no module outside the symbol touched", 40)
+	fd, p := c.funcDeclOf("qrcode/encoder", "embedBasicPatterns")
+	if fd == nil {
+		r.AnchorLost("S-QRBASIC", "qrcode/encoder.embedBasicPatterns", "function not found")
+		return
+	}
+	for v := 1; v <= 40; v++ {
+		key := fmt.Sprintf("qrcode/encoder.embedBasicPatterns v%d", v)
+		r.Analysed(key)
+		dim := 17 + 4*v
+		want := make([][]int, dim)
+		for y := range want {
+			want[y] = make([]int, dim)
+			for x := range want[y] {
+				want[y][x] = -1
+			}
+		}
+		// timing first (the lowest priority in the comparison; alignment patterns on row / column 6 agree with it)
+		for i := 8; i < dim-8; i++ {
+			want[6][i] = (i + 1) % 2
+			want[i][6] = (i + 1) % 2
+		}
+		ctrs := refQRAlign(v)
+		for _, cy := range ctrs {
+			for _, cx := range ctrs {
+				if (cx == 6 && cy == 6) || (cx == 6 && cy == dim-7) || (cx == dim-7 && cy == 6) {
+					continue
+				}
+				for dy := -2; dy <= 2; dy++ {
+					for dx := -2; dx <= 2; dx++ {
+						want[cy+dy][cx+dx] = refQRAlignPattern[dy+2][dx+2]
+					}
+				}
+			}
+		}
+		for _, o := range [][2]int{{0, 0}, {dim - 7, 0}, {0, dim - 7}} {
+			for dy := -1; dy <= 7; dy++ {
+				for dx := -1; dx <= 7; dx++ {
+					x, y := o[0]+dx, o[1]+dy
+					if x < 0 || y < 0 || x >= dim || y >= dim {
+						continue
+					}
+					if dx >= 0 && dx < 7 && dy >= 0 && dy < 7 {
+						want[y][x] = refQRFinder[dy][dx]
+					} else {
+						want[y][x] = 0 // separator
+					}
+				}
+			}
+		}
+		want[dim-8][8] = 1
+		got := map[[2]int64]int64{}
+		h := &rpf{unroll: 100000, maxSteps: 5000000, effectCalls: true}
+		h.callHook = func(rr *rpf, call *ast.CallExpr, callee types.Object) (*Val, bool) {
+			fn, ok := callee.(*types.Func)
+			if !ok {
+				return nil, false
+			}
+			recv := fn.Type().(*types.Signature).Recv()
+			if recv != nil && strings.HasSuffix(recv.Type().String(), "ByteMatrix") {
+				switch fn.Name() {
+				case "GetWidth", "GetHeight":
+					return vint(int64(dim)), true
+				case "Get", "Set", "SetBool":
+					x, y := rr.expr(call.Args[0]), rr.expr(call.Args[1])
+					if x.K != VInt || y.K != VInt || x.I < 0 || y.I < 0 || x.I >= int64(dim) || y.I >= int64(dim) {
+						rpfFail("%s(%v, %v) outside the %dx%d symbol", fn.Name(), x, y, dim, dim)
+					}
+					k := [2]int64{x.I, y.I}
+					if fn.Name() == "Get" {
+						if val, ok := got[k]; ok {
+							return &Val{K: VInt, I: val, T: types.Typ[types.Int8]}, true
+						}
+						return &Val{K: VInt, I: -1, T: types.Typ[types.Int8]}, true
+					}
+					val := rr.expr(call.Args[2])
+					switch val.K {
+					case VInt:
+						got[k] = val.I
+					case VBool:
+						got[k] = 0
+						if val.B {
+							got[k] = 1
+						}
+					default:
+						rpfFail("a non-constant module value is stored")
+					}
+					return &Val{K: VNil}, true
+				}
+			}
+			if fn.Name() == "GetVersionNumber" {
+				return vint(int64(v)), true
+			}
+			return errCtorHook(rr, call, callee)
+		}
+		res, err := c.rpfCall(fd, p, []*Val{{K: VStruct, Ptr: true, Fields: map[string]*Val{}}, {K: VStruct, Ptr: true, Fields: map[string]*Val{}}}, h)
+		pos := c.pos(fd.Pos())
+		if err != nil {
+			r.Undecided("S-QRBASIC", key, pos, err.Error())
+			continue
+		}
+		bad := ""
+		if len(res) != 1 || res[0].K != VNil {
+			bad = "embedBasicPatterns reports an error on an empty matrix"
+		}
+		for y := 0; y < dim && bad == ""; y++ {
+			for x := 0; x < dim; x++ {
+				g, ok := got[[2]int64{int64(x), int64(y)}]
+				if !ok {
+					g = -1
+				}
+				if int(g) != want[y][x] {
+					name := func(vv int) string {
+						switch vv {
+						case -1:
+							return "empty"
+						case 0:
+							return "light"
+						}
+						return "dark"
+					}
+					bad = fmt.Sprintf("version %d, module (x=%d, y=%d) is %s, the fixed patterns of ISO 18004 make it %s", v, x, y, name(int(g)), name(want[y][x]))
+					break
+				}
+			}
+		}
+		r.Check(bad == "", "S-QRBASIC", key, pos, bad)
+	}
 }
